@@ -678,7 +678,7 @@ Proof.
     rewrite value_eqb_arr. rewrite plain_arr in Pa.
     assert (H : list_eqb l l2 = true <-> l = l2).
     { revert l2. induction IH as [|x r Hx _ IHr]; intros [|y r2]; cbn [list_eqb];
-        try (split; (discriminate || auto)).
+        try (split; (discriminate || auto); fail).
       cbn [plain_list] in Pa. apply andb_true_iff in Pa as [P1 P2].
       rewrite andb_true_iff, (Hx y P1), (IHr P2 r2). split; [intros [E1 E2]; rewrite E1, E2; reflexivity | intro E; inversion E; auto]. }
     rewrite H. split; congruence.
@@ -686,7 +686,7 @@ Proof.
     rewrite value_eqb_obj. rewrite plain_objm in Pa.
     assert (H : obj_eqb m m2 = true <-> m = m2).
     { revert m2. induction IH as [|[k x] r Hx _ IHr]; intros [|[k2 y] r2]; cbn [obj_eqb];
-        try (split; (discriminate || auto)).
+        try (split; (discriminate || auto); fail).
       cbn [plain_obj] in Pa. apply andb_true_iff in Pa as [P1 P2]. cbn in Hx.
       rewrite !andb_true_iff, seqb_eq, (Hx y P1), (IHr P2 r2).
       split; [intros [[E0 E1] E2]; rewrite E0, E1, E2; reflexivity | intro E; inversion E; auto]. }
@@ -708,9 +708,13 @@ Theorem C03_eq_struct :
   (* on function-free data = is structural equality *)
   (forall a b, kind_of (Some a) <> KFunction -> eq_values a b = value_eqb a b).
 Proof.
-  repeat split; try (intros; cbn; try rewrite seqb_eq; try rewrite Bool.eqb_true_iff; congruence).
-  - intros a b H. destruct a, b; cbn in *; try reflexivity; congruence.
-  - intros a b H. destruct a, b; cbn in *; try reflexivity; congruence.
+  split; [reflexivity|].
+  split; [intros x y; cbn; apply seqb_eq|].
+  split; [intros x y; cbn; apply Bool.eqb_true_iff|].
+  split; [reflexivity|]. split; [reflexivity|]. split; [reflexivity|].
+  split.
+  - intros a b H. destruct a, b; cbn in *; try reflexivity; try congruence; destruct c; reflexivity.
+  - intros a b H. destruct a, b; cbn in *; try reflexivity; try congruence; destruct c; reflexivity.
 Qed.
 Print Assumptions C03_eq_struct.
 
@@ -730,7 +734,7 @@ Proof.
   - intros a D. rewrite Hs by auto. now apply value_eqb_refl.
   - intros a b D. rewrite Hs by auto. rewrite value_eqb_sym.
     destruct b; try (rewrite Hs by (cbn; discriminate); reflexivity).
-    destruct a; reflexivity.
+    destruct a; try discriminate; destruct c; reflexivity.
   - intros a b c Da Db. rewrite !Hs by auto. apply value_eqb_trans.
   - intros E. rewrite Hs in E. now apply value_eqb_plain in E. destruct a; cbn in *; discriminate.
   - intros ->. rewrite Hs. now apply value_eqb_plain. destruct b; cbn in *; discriminate.
@@ -883,20 +887,13 @@ Theorem C03_lt_numbers : forall x y,
       fltb x y = false /\ feqb x y = true /\ fltb y x = false \/
       fltb x y = false /\ feqb x y = false /\ fltb y x = true)).
 Proof.
-  intros x y. repeat split.
-  - unfold fltb, feqb, SFltb, SFeqb. rewrite (SFcompare_antisym x y).
-    destruct x, y; try discriminate; cbn; try (destruct (SFcompare _ _) as [[]|]; reflexivity);
-      try (destruct s; reflexivity); try (destruct s0; reflexivity); try (destruct s, s0; reflexivity).
-    destruct (if s then _ else _); reflexivity.
-  - unfold fltb, feqb, SFltb, SFeqb. rewrite (SFcompare_antisym x y).
-    destruct x, y; try discriminate; cbn; 
-      try (destruct s; reflexivity); try (destruct s0; reflexivity); try (destruct s, s0; reflexivity).
-    destruct (if s then _ else _); reflexivity.
-  - unfold fltb, feqb, SFltb, SFeqb. rewrite (SFcompare_antisym x y).
-    destruct x, y; try discriminate; cbn;
-      try (destruct s; auto; fail); try (destruct s0; auto; fail); try (destruct s, s0; auto; fail).
-    + auto.
-    + destruct (if s then _ else _); auto.
+  intros x y. split; [reflexivity|]. split; [reflexivity|]. split; [reflexivity|].
+  split; [reflexivity|]. intros Nx Ny.
+  assert (Hc : exists c, SFcompare x y = Some c).
+  { destruct x, y; cbn; eauto; discriminate. }
+  destruct Hc as [c Hc].
+  unfold fltb, feqb, SFltb, SFeqb. rewrite (SFcompare_antisym x y), Hc.
+  destruct c; cbn; auto 10.
 Qed.
 Print Assumptions C03_lt_numbers.
 
@@ -937,4 +934,113 @@ Example C03_bool_ex :
   boolean_result BoolAnd (Some (VArr [VNum fzero; VStr "a"])) (Some (VObj [])) = Some (VBool false) /\
   boolean_result BoolOr None (Some (VNum fone)) = Some (VBool true) /\
   boolean_result BoolOr (Some (VStr "")) (Some (VNum fnzero)) = Some (VBool false).
+Proof. vm_compute. repeat split. Qed.
+
+(* ------------------------------------------------------------------------------------ *)
+(* 6. the range operator                                                                 *)
+(* ------------------------------------------------------------------------------------ *)
+
+(* a, a+1, a+1+1, ... : k float64 increments, as the loop of evalRange does *)
+Definition succ_iter (k : nat) (a : f64) : f64 := Nat.iter k (fun x => fadd x fone) a.
+
+Lemma iter_succ_r' {A} (f : A -> A) n x : Nat.iter (S n) f x = Nat.iter n f (f x).
+Proof. induction n as [|n IH]; [reflexivity|]. cbn in *. now rewrite IH. Qed.
+
+Lemma range_items_length n : forall a, List.length (range_items n a) = n.
+Proof. induction n as [|n IH]; intro a; cbn; [reflexivity | now rewrite IH]. Qed.
+
+Lemma range_items_nth n : forall a k, (k < n)%nat ->
+  nth_error (range_items n a) k = Some (VNum (succ_iter k a)).
+Proof.
+  induction n as [|n IH]; intros a k Hk; [lia|].
+  destruct k as [|k]; [reflexivity|].
+  cbn [range_items nth_error]. rewrite IH by lia.
+  unfold succ_iter. now rewrite iter_succ_r'.
+Qed.
+
+Lemma range_items_nth_none n a k : (n <= k)%nat -> nth_error (range_items n a) k = None.
+Proof. intro H. apply nth_error_None. now rewrite range_items_length. Qed.
+
+(** [a..b] on two numbers, completely: an error iff a bound is not integer-valued (left bound
+    first) or the item count b-a+1 (computed as the port does, int(b-a)+1) is negative or
+    above ten million; nothing when b < a; otherwise the array of exactly that many numbers
+    whose k-th member is a followed by k increments. *)
+Theorem C03_range : forall a b,
+  let size := (go_int (fsub b a) + 1)%Z in
+  range_result (Some (VNum a)) (Some (VNum b)) =
+    if negb (f_is_integer a) then inr (EEval ErrNonIntegerLHS)
+    else if negb (f_is_integer b) then inr (EEval ErrNonIntegerRHS)
+    else if fltb b a then inl None
+    else if (size <? 0)%Z || (max_range_items <? size)%Z then inr (EEval ErrMaxRangeItems)
+    else inl (Some (VArr (range_items (Z.to_nat size) a))).
+Proof.
+  intros a b size. unfold range_result. cbn.
+  destruct (f_is_integer a); cbn; [|reflexivity].
+  destruct (f_is_integer b); cbn; reflexivity.
+Qed.
+Print Assumptions C03_range.
+
+Theorem C03_range_items : forall l r items,
+  range_result l r = inl (Some (VArr items)) ->
+  exists a b, l = Some (VNum a) /\ r = Some (VNum b) /\
+    f_is_integer a = true /\ f_is_integer b = true /\ fltb b a = false /\
+    let size := (go_int (fsub b a) + 1)%Z in
+    (0 <= size <= max_range_items)%Z /\
+    List.length items = Z.to_nat size /\
+    (forall k, (k < Z.to_nat size)%nat -> nth_error items k = Some (VNum (succ_iter k a))) /\
+    forallb is_num_value items = true.
+Proof.
+  intros l r items H.
+  destruct l as [[|b1|a|s1|l1|m1|c1]|]; destruct r as [[|b2|b|s2|l2|m2|c2]|]; try discriminate;
+    try (cbn in H; destruct (f_is_integer _); discriminate).
+  exists a, b. rewrite C03_range in H.
+  destruct (f_is_integer a); [|discriminate]. destruct (f_is_integer b); [|discriminate].
+  destruct (fltb b a); [discriminate|]. cbn [negb] in H.
+  destruct (_ || _) eqn:Es; [discriminate|]. inversion H; subst items.
+  repeat split; try lia.
+  - apply range_items_length.
+  - intros k Hk. now apply range_items_nth.
+  - apply range_items_nums.
+Qed.
+Print Assumptions C03_range_items.
+
+(** the range is an array only in the case above; it is "no value" exactly when a bound is
+    missing (the other one being an integer or missing too) or b < a. *)
+Theorem C03_range_empty : forall l r,
+  range_result l r = inl None <->
+  (rkind_of l = RMissing /\ rkind_of r <> ROther) \/
+  (rkind_of l = RInt /\ rkind_of r = RMissing) \/
+  (exists a b, l = Some (VNum a) /\ r = Some (VNum b) /\
+     f_is_integer a = true /\ f_is_integer b = true /\ fltb b a = true).
+Proof.
+  intros l r.
+  destruct l as [[|b1|a|s1|l1|m1|c1]|]; destruct r as [[|b2|b|s2|l2|m2|c2]|];
+    unfold range_result; cbn;
+    repeat match goal with
+           | |- context [f_is_integer ?x] =>
+               let E := fresh "E" in destruct (f_is_integer x) eqn:E; cbn
+           end;
+    repeat match goal with
+           | |- context [if ?c then _ else _] => let E := fresh "E" in destruct c eqn:E
+           end;
+    (split;
+     [ try discriminate; intros _;
+       first [ left; split; [reflexivity | discriminate]
+             | right; left; split; reflexivity
+             | right; right; eauto 10 ]
+     | intros [[H1 H2]|[[H1 H2]|(a' & b' & H1 & H2 & H3 & H4 & H5)]];
+       try discriminate; try congruence; try (exfalso; apply H2; reflexivity) ]).
+Qed.
+Print Assumptions C03_range_empty.
+
+Example C03_range_ex :
+  range_result (Some (VNum (f_of_Z (-1)))) (Some (VNum (f_of_Z 2))) =
+    inl (Some (VArr [VNum (f_of_Z (-1)); VNum fzero; VNum fone; VNum (f_of_Z 2)])) /\
+  succ_iter 3 (f_of_Z (-1)) = f_of_Z 2 /\
+  range_result (Some (VNum (f_of_Z 5))) (Some (VNum (f_of_Z 5))) = inl (Some (VArr [VNum (f_of_Z 5)])) /\
+  range_result (Some (VNum fzero)) (Some (VNum (f_of_Z 10000000))) = inr (EEval ErrMaxRangeItems) /\
+  range_result (Some (VNum fone)) (Some (VNum (f_of_Zexp 1 600 false))) = inr (EEval ErrMaxRangeItems) /\
+  range_result (Some (VNum fone)) (Some (VNum (fdiv (f_of_Z 5) (f_of_Z 2)))) = inr (EEval ErrNonIntegerRHS) /\
+  range_result None (Some (VNum (fdiv (f_of_Z 5) (f_of_Z 2)))) = inr (EEval ErrNonIntegerRHS) /\
+  range_result None (Some (VNum fone)) = inl None.
 Proof. vm_compute. repeat split. Qed.
